@@ -122,13 +122,20 @@ namespace vh
         { std::ofstream o(dir / "main.sqf", std::ios::binary); o.write(text.data(), (std::streamsize)text.size()); }
         v.rt->fileio().add_mapping(dir.string(), "/");
         auto res = v.rt->parser_preprocessor().preprocess(*v.rt, text, sqf::runtime::fileio::pathinfo((dir / "main.sqf").string(), std::string("/main.sqf")));
-        fs::remove_all(dir);
         std::string warn;
         for (auto& e : v.logger->entries)
         {
             if (e.level == (int)loglevel::warning) { if (!warn.empty()) { warn.push_back(','); } warn += std::to_string(e.code); }
         }
-        if (!res.has_value()) { return "fail " + v.logger->codes((int)loglevel::error) + " warn=" + warn; }
+        std::string errs = v.logger->codes((int)loglevel::error);
+        // the same text once more in the same VM: a run starts from the same macro table as the first one did
+        auto res2 = v.rt->parser_preprocessor().preprocess(*v.rt, text, sqf::runtime::fileio::pathinfo((dir / "main.sqf").string(), std::string("/main.sqf")));
+        fs::remove_all(dir);
+        if (res.has_value() != res2.has_value() || (res.has_value() && *res != *res2))
+        {
+            return "second-run-in-one-vm-differs first=" + (res.has_value() ? hex_of(*res) : std::string("fail")) + " second=" + (res2.has_value() ? hex_of(*res2) : std::string("fail"));
+        }
+        if (!res.has_value()) { return "fail " + errs + " warn=" + warn; }
         std::string payload = *res;
         size_t pos;
         std::string root = dir.string();
